@@ -5131,6 +5131,7 @@ class Entity(object, metaclass=EntityMeta):
                 for cache_index, old_key, new_key in undo:
                     if new_key is not None: del cache_index[new_key]
                     if old_key is not None: cache_index[old_key] = obj
+            undo_funcs.append(undo_func)
             try:
                 for attr in obj._simple_keys_:
                     if attr not in avdict: continue
@@ -5152,7 +5153,7 @@ class Entity(object, metaclass=EntityMeta):
                 for attr, new_val in collection_avdict.items():
                     attr.__set__(obj, new_val, undo_funcs)
             except:
-                for undo_func in undo_funcs: undo_func()
+                for undo_func in reversed(undo_funcs): undo_func()
                 raise
         obj._vals_.update(avdict)
     def _keyargs_to_avdicts_(obj, kwargs):
